@@ -1,6 +1,10 @@
 package c03
 
-import "verif/lib/shapes"
+import (
+	"strings"
+
+	"verif/lib/shapes"
+)
 
 // extra are the C03-specific program shapes, loaded on top of the shared catalogue verif/lib/shapes (which is also
 // swept by C15). They add (a) the callback-inside-a-built-in families of the property text, (b) shapes that keep
@@ -55,6 +59,29 @@ async function adp(a=(log('adp'),2)){ log('adp-body'); await null; return a }
 function main(){ var it; try { it=gdp(); log('gdp-made'); it.next(); it.return() } catch (e) { log('catch-pi') } adp().then(function(v){ log('adp'+v) }, function(e){ log('adp-rej') }); return 'pi' }`),
 	sh("ctorreturn", `function CR(){ log('cr'); this.a=1; return hostGet({get o(){ log('cr-getter'); return {b:2} }}, 'o') } class CD extends CR { constructor(){ var r=super(); log('cd'+r.b) } }
 function main(){ var x=new CR(); var y=new CD(); var z=new (CR.bind(null))(); var w=Reflect.construct(CR, [], CD); return x.b+y.b+z.b+w.b }`),
+}
+
+// scripts: shapes whose Src is top-level script code (no function around it), run only by the entry kind "script"
+// (a top-level RunProgram). Operand-stack leaks of an abrupt path are hidden by a function return but not here.
+// They use helpers of the other shapes (mkiter, gen, hg, CF, tag); only var declarations, so that they can be re-run.
+var scripts = []shapes.Shape{
+	sh("S_try", `log('s1'); try { log('s2'); try { throw 1 } catch (se) { log('catch-s') } finally { log('finally-s') } } finally { log('finally-s2') } log('s3'); 'st'`),
+	sh("S_iter", `for (var sv of mkiter('sa',2)) { log('sv'+sv); if (sv==1) break } var [sx,sy]=mkiter('sd',3); [...mkiter('ss',1)]; Math.max(...mkiter('sm',1)); log('s-end'+sx+sy); 'si'`),
+	sh("S_gen", `var sit=gen(); log('n'+sit.next().value); sit.next('v'); log('r'+sit.return(1).value); for (var sg of gen()) { log('sg'+sg); break } 'sg'`),
+	sh("S_async", `async function saf(a=(log('sdef'),1)){ log('sa1'); await null; log('sa2') } saf(); saf(2).then(function(){ log('sthen') }); (async()=>{ log('arrow-s'); throw 1 })().catch(function(){ log('scatch-job') }); function* sgf(a=(log('sgdef'),1)){ yield a } sgf().next(); log('s-sync'); 'sa'`),
+	sh("S_with", `var so={p:1}; with (so) { p=(log('sw1'),2); for (var si=0;si<2;si++){ try { if (si==0) continue; log('sw2') } finally { log('finally-sw') } } } switch (so.p) { case 2: log('case2'); default: log('dflt') } so?.q?.(log('never')); 'sw'`),
+	sh("S_calls", `callback(function(){ log('sc1'); return hostGet(hg,'prop') }); [3,1,2].sort(function(a,b){ log('scmp'); return a-b }); new CF(); log('sc2'); tag`+"`x${(log('ssub'),1)}`"+`; runNested("log('snr')"); 'sc'`),
+	sh("S_class", `{ class SK { static f=(log('sk-static'),1); #p=(log('sk-priv'),2); constructor(){ log('sk-ctor') } get v(){ return this.#p } } log('sk'+new SK().v) } var sq={[(log('sk-key'),'a')]:1}; 'sk'`),
+}
+
+func isScript(shape string) bool { return strings.HasPrefix(shape, "S_") }
+
+// entriesOf: the entry kinds that apply to a shape.
+func entriesOf(shape string) []string {
+	if isScript(shape) {
+		return []string{"script"}
+	}
+	return entries
 }
 
 func sh(name, src string) shapes.Shape { return shapes.Shape{Name: name, Src: src} }
